@@ -145,5 +145,20 @@ PROPS["C09"] = {
     "technique": "Lean 4 proof over decision models of the handlers + differential check of the real handlers with operator moves",
 }
 
+PROPS["C08"] = {
+    "lean": ["MysyncProofs.C08"],
+    "go": [("internal/app", "^TestVerifC08$")],
+    "level": "proof",
+    "components": ["MysyncModel/App/Lost.lean (stateLost, checkHAReplicasRunning incl. the local host in its own probe list, outcome classes of SetReadOnlyWithForce / IsWaitingSemiSyncAck / stopReplicationOnMaster as inputs)"],
+    "trusted": ["T4 fake MySQL semantics (read_only, offline_mode, semi-sync variables, PROCESSLIST/KILL, lock wait timeout 1205, hanging statements)",
+                "E8 virtual clock; probe time-outs take db_lost_check_timeout of virtual time"],
+    "rule": "random 1-3 tick histories of the REAL stateLost with sleeps {0,24,25,26,29,30,31 s} (the 5 s probe time-out puts 25 s exactly on the 30 s delay) over: cluster size 1-4, local role {master, replica, non-HA host}, semi-sync on/off, wait count 1-2, per-replica condition {streaming, stopped, wrong source, not semi-sync, refusing, timing out}, fencing disabled, reconnect, read-only outcome {ok, 1205 for ever, deadline, other error, 1205 until semi-sync is off}, stuck-ack visible/not/unreadable, failing offline / semi-sync-off, failing local semi-sync status. distinct = distinct tick; non-trivial = the node was fenced",
+    "assumptions": [],
+    "min_lines": 2500,
+    "level_text": "Theorems over the model for all inputs: reconnect -> candidate; exempt (single node, non-HA, disabled, live group) changes nothing; postponement only while some replica is UNREACHABLE and only within the delay from the first such iteration; refusing replicas never postpone; fenced after the delay; fencing = read-only request to the local node (forced on a master); stuck-commit handling order; semi-sync off / offline only in that case; timer cleared when safe. The model's action alphabet has no promotion / re-point / un-fence. Monitors on the real code: any remote statement or coordination write, un-fencing, fencing although exempt, not fencing without entitlement to postpone.",
+    "level_note": "Trusted: Lean kernel; fake server semantics; harness/replay.",
+    "technique": "Lean 4 proof over a decision model of stateLost + differential check of the real handler with virtual time",
+}
+
 _todo = "machinery for this property is not built yet in this round; planned per DESIGN.md §7/§10 (no claim is made until its check exists)"
 NOT_APPLICABLE = {("C%02d" % i): _todo for i in range(1, 21)}
